@@ -209,8 +209,9 @@ class Register(GlobalVar):
             case _:
                 raise ValueError(f"Register {reg_name} has no class assigned.")
 
+        # Rdd, Rss etc. are pairs. Explicit registers like R11 or R22 are not.
         is_double = ":" in reg_name or (
-            len(reg_name) > 2 and reg_name[1] == reg_name[2]
+            not self.is_explicit and len(reg_name) > 2 and reg_name[1] == reg_name[2]
         )
         if is_double:
             if reg_name[0] == "R":
